@@ -69,6 +69,44 @@ def curved(chk, shapes):
                           sp.And(*[sp.Eq(ex(centre[i]), cen[i]) for i in range(3)]))
 
 
+def _replay_centred():
+    """real centred balls of a long rectangle, a trapezoid and a slab, scaled and placed, against their definitions"""
+    def replay(model):
+        from .common import real_coxeter
+        cox = real_coxeter()
+        th = 0.7
+        Rz = np.array([[np.cos(th), -np.sin(th), 0], [np.sin(th), np.cos(th), 0], [0, 0, 1.0]])
+        Rx = np.array([[1.0, 0, 0], [0, np.cos(1.1), -np.sin(1.1)], [0, np.sin(1.1), np.cos(1.1)]])
+        cases = [("ConvexPolygon", np.array([[0.0, 0, 0], [10, 0, 0], [10, 1, 0], [0, 1, 0]])), ("ConvexPolygon", np.array([[0.0, 0, 0], [6, 0, 0], [4, 1.5, 0], [1, 1.5, 0]])),
+                 ("ConvexPolygon", np.array([[0.0, 0, 0], [4, 0, 0], [4, 4, 0], [0, 4, 0]])),
+                 ("ConvexPolyhedron", np.array([[x, y, z] for x in (0.0, 8.0) for y in (0.0, 3.0) for z in (0.0, 0.5)]))]
+        for klass, P0 in cases:
+            for s_ in (1.0, 1e-3, 1e3):
+                for place in (lambda X: X, lambda X: X @ (Rz @ Rx).T + np.array([3.0, -2.0, 5.0])):
+                    P = place(P0) * s_
+                    try:
+                        shape = getattr(cox.shapes, klass)(P)
+                        two_d = klass == "ConvexPolygon"
+                        rb = float(getattr(shape, "minimal_centered_bounding_circle" if two_d else "minimal_centered_bounding_sphere").radius)
+                        ib = getattr(shape, "maximal_centered_bounded_circle" if two_d else "maximal_centered_bounded_sphere")
+                        ri, ci = float(ib.radius), np.asarray(ib.centroid, float)
+                    except Exception as e:  # noqa: BLE001
+                        return True, {"class": klass, "points": P.tolist(), "raised": f"{type(e).__name__}: {e}"[:200]}
+                    cen, V = np.asarray(shape.centroid, float), np.asarray(shape.vertices, float)
+                    want_b = float(np.linalg.norm(V - cen, axis=1).max())
+                    if two_d:
+                        want_i = min(np.linalg.norm(np.cross(cen - V[k], V[(k + 1) % len(V)] - V[k])) / np.linalg.norm(V[(k + 1) % len(V)] - V[k]) for k in range(len(V)))
+                    else:
+                        eq = np.asarray(shape._equations, float)
+                        want_i = float(np.min(np.abs(eq[:, :3] @ cen + eq[:, 3])))
+                    if abs(rb - want_b) > 1e-9 * want_b or abs(ri - want_i) > 1e-9 * want_b or np.abs(ci - cen).max() > 1e-9 * want_b:
+                        return True, {"class": klass, "points": P.tolist(), "minimal_centered_bounding_radius": rb, "largest_centroid_vertex_distance": want_b,
+                                      "maximal_centered_bounded_radius": ri, "smallest_centroid_edge_or_face_distance": float(want_i),
+                                      "ball_centre": ci.tolist(), "centroid": cen.tolist()}
+        return False, {}
+    return replay
+
+
 def centred(chk, shapes):
     # ---------------------------------------------------------------- ConvexPolyhedron
     MOD = "coxeter.shapes.convex_polyhedron"
@@ -92,9 +130,9 @@ def centred(chk, shapes):
                    "proved" if ok else "refuted", "structure", model={}, detail=str(ex(rad))[:100])
         if ok:
             want = sp.sqrt(sp.factor_terms(sp.expand(sum((Vrow[j] - C_VEC[j])**2 for j in range(3)))))
-            chk.prove_eq("ConvexPolyhedron.minimal_centered_bounding_sphere:distance_to_centroid", fk, p.pc, d.at(PS.N.k), want)
+            chk.prove_eq("ConvexPolyhedron.minimal_centered_bounding_sphere:distance_to_centroid", fk, p.pc, d.at(PS.N.k), want, replay=_replay_centred())
         chk.prove("ConvexPolyhedron.minimal_centered_bounding_sphere:centred_at_centroid", fk, p.pc,
-                  sp.And(*[sp.Eq(ex(centre[i]), C_VEC[i]) for i in range(3)]))
+                  sp.And(*[sp.Eq(ex(centre[i]), C_VEC[i]) for i in range(3)]), replay=_replay_centred())
     fk = chk.function(MOD, "ConvexPolyhedron.maximal_centered_bounded_sphere[get]")
 
     def run_i():
@@ -132,9 +170,9 @@ def centred(chk, shapes):
         chk.record(f"ConvexPolyhedron.maximal_centered_bounded_sphere:radius_is_min_face_distance[{t}]", fk,
                    "proved" if ok else "refuted", "structure", model={}, detail=str(ex(rad))[:100])
         if ok:
-            chk.prove_eq(f"ConvexPolyhedron.maximal_centered_bounded_sphere:signed_face_distance[{t}]", fk, p.pc, d.at(PS.F.k), dist)
+            chk.prove_eq(f"ConvexPolyhedron.maximal_centered_bounded_sphere:signed_face_distance[{t}]", fk, p.pc, d.at(PS.F.k), dist, replay=_replay_centred())
         chk.prove(f"ConvexPolyhedron.maximal_centered_bounded_sphere:centred_at_centroid[{t}]", fk, p.pc,
-                  sp.And(*[sp.Eq(ex(centre[i]), C_VEC[i]) for i in range(3)]))
+                  sp.And(*[sp.Eq(ex(centre[i]), C_VEC[i]) for i in range(3)]), replay=_replay_centred())
     # ---------------------------------------------------------------- ConvexPolygon
     MODG = "coxeter.shapes.convex_polygon"
     fk = chk.function(MODG, "ConvexPolygon.minimal_centered_bounding_circle[get]")
@@ -157,9 +195,9 @@ def centred(chk, shapes):
                    "proved" if ok else "refuted", "structure", model={})
         if ok:
             want = sp.sqrt(sp.factor_terms(sp.expand(sum((Vm[j] - C_VEC[j])**2 for j in range(3)))))
-            chk.prove_eq("ConvexPolygon.minimal_centered_bounding_circle:distance_to_centroid", fk, p.pc, d.at(M.NV.k), want)
+            chk.prove_eq("ConvexPolygon.minimal_centered_bounding_circle:distance_to_centroid", fk, p.pc, d.at(M.NV.k), want, replay=_replay_centred())
         chk.prove("ConvexPolygon.minimal_centered_bounding_circle:centred_at_centroid", fk, p.pc,
-                  sp.And(*[sp.Eq(ex(centre[i]), C_VEC[i]) for i in range(3)]))
+                  sp.And(*[sp.Eq(ex(centre[i]), C_VEC[i]) for i in range(3)]), replay=_replay_centred())
     fk = chk.function(MODG, "ConvexPolygon.maximal_centered_bounded_circle[get]")
 
     def run_gi():
@@ -186,9 +224,9 @@ def centred(chk, shapes):
             cr = [w[1] * dl[2] - w[2] * dl[1], w[2] * dl[0] - w[0] * dl[2], w[0] * dl[1] - w[1] * dl[0]]
             body = d.at(k)
             chk.prove_eq("ConvexPolygon.maximal_centered_bounded_circle:distance_to_edge_line", fk, p.pc,
-                         sp.expand(body**2 * sum(x * x for x in dl)), sp.expand(sum(x * x for x in cr)))
+                         sp.expand(body**2 * sum(x * x for x in dl)), sp.expand(sum(x * x for x in cr)), replay=_replay_centred())
         chk.prove("ConvexPolygon.maximal_centered_bounded_circle:centred_at_centroid", fk, p.pc,
-                  sp.And(*[sp.Eq(ex(centre[i]), C_VEC[i]) for i in range(3)]))
+                  sp.And(*[sp.Eq(ex(centre[i]), C_VEC[i]) for i in range(3)]), replay=_replay_centred())
 
 
 def _same_body(a, b):
